@@ -75,6 +75,9 @@ def build_impl(variant="asan"):
     """Compile /repo's current working tree into build/<hash>-<variant>/libq.a. Returns the dir."""
     if variant == "asan":
         cc, flags = "gcc", BASE_FLAGS + SAN_FLAGS
+    elif variant == "asan-ndebug":
+        # the project's own release build defines NDEBUG: code inside assert() disappears
+        cc, flags = "gcc", BASE_FLAGS + SAN_FLAGS + ["-DNDEBUG"]
     elif variant == "tsan":
         cc, flags = "clang-14", BASE_FLAGS + ["-fsanitize=thread", "-fno-omit-frame-pointer"]
     elif variant == "plain":
@@ -132,7 +135,7 @@ def build_harness(name, impl_dir, variant="asan", wraps=(), extra=(), lib="libq.
     with Lock("harness-" + name):
         if os.path.exists(out):
             return out
-        if variant == "asan":
+        if variant in ("asan", "asan-ndebug"):
             cc, flags = "gcc", BASE_FLAGS + SAN_FLAGS
         elif variant == "tsan":
             cc, flags = "clang-14", BASE_FLAGS + ["-fsanitize=thread"]
@@ -428,6 +431,7 @@ class Check:
     harness = None         # harness source name
     wraps = ()
     lib = "libq.a"         # "libqw.a": allocator calls of the library go through harness/allocwrap.h
+    ndebug_reruns = 6      # how many corpus / random streams are re-run on the -DNDEBUG build of the library
     lean_targets = ()      # extra lake targets besides Props.<prop>
     max_corr = 3           # correspondence breaks after which streams run implementation + oracle only
     also_audit = ()        # obligations proved in other Props modules (fully qualified theorem names)
@@ -533,9 +537,45 @@ class Check:
         # 4 correspondence + oracle
         self.impl_dir = impl_dir
         if impl_dir and (self.harness or self.multi):
+            cand = {}
+            prio = ("random", "relocation", "scenario", "fault", "corpus")
+
+            def rank(st):
+                return (min([i for i, k in enumerate(prio) if k in st.name] or [len(prio)]), -len(st.ops))
             for st in self.streams():
                 self.run_stream(st, dok)
+                if len(st.ops) <= 60000:
+                    # one candidate per stream family (text before the last ':' or '/'): random histories first
+                    fam = re.split(r"[:/](?=[^:/]*$)", st.name)[0]
+                    if fam not in cand or rank(st) < rank(cand[fam]):
+                        cand[fam] = st
             self.extra(impl_dir)
+            rerun = sorted(cand.values(), key=rank)[:self.ndebug_reruns]
+            # the same streams on a library built with -DNDEBUG (the project's release build): an
+            # assert() with a side effect, or code that only works because an assert aborts first,
+            # behaves differently there; model, oracle and expected lines are the same
+            if rerun and not [v for v in self.violations if v[0] in ("property", "crash")]:
+                try:
+                    nd = build_impl("asan-ndebug")
+                except BuildError as e:
+                    nd = None
+                    self.violation("build", "build-failure", "NDEBUG build: " + str(e)[:2000], {"error": str(e)[:4000]})
+                if nd:
+                    saved, self.impl_dir = self.impl_dir, nd
+                    saved_hbin = self.hbin
+                    self.impl_variant = "asan-ndebug"
+                    try:
+                        if self.harness:
+                            self.hbin = build_harness(self.harness, nd, "asan", self.wraps, lib=self.lib)
+                        for st in rerun:
+                            st2 = Stream(st.name + " [NDEBUG build]", st.ops, history=st.history, note=st.note, module=st.module,
+                                         harness=st.harness, lib=st.lib, wraps=st.wraps, oracle=st.oracle, nomodel=st.nomodel)
+                            self.run_stream(st2, dok)
+                    except BuildError as e:
+                        self.violation("build", "build-failure", "NDEBUG build: " + str(e)[:2000], {"error": str(e)[:4000]})
+                    finally:
+                        self.impl_dir, self.hbin = saved, saved_hbin
+                        self.impl_variant = "asan"
         # 5 decide
         return self.decide()
 
@@ -599,7 +639,8 @@ class Check:
             ops = self.shrink(st, i, lambda o, im, mo, rc: judge_history(o, im) is not None)
             self.violation("property", self.classify(st.ops[i], desc), desc,
                            {"stream": st.name, "ops": ops, "first_bad_op": st.ops[i], "impl_line": impl[i] if i < len(impl) else None,
-                            "module": module, "harness": st.harness or self.harness, "lib": st.lib or self.lib})
+                            "module": module, "harness": st.harness or self.harness, "lib": st.lib or self.lib,
+                            "impl_variant": getattr(self, "impl_variant", "asan")})
         elif crashed:
             i = min(len(impl), len(st.ops) - 1)
             op = st.ops[i] if len(impl) < len(st.ops) else "<end of stream: %s>" % st.ops[-1].split()[0]
@@ -607,7 +648,8 @@ class Check:
             ops = self.shrink(st, i, lambda o, im, mo, rc: rc != 0)
             self.violation("crash", self.classify(op, desc), desc,
                            {"stream": st.name, "ops": ops, "stderr": err[-3000:],
-                            "module": module, "harness": st.harness or self.harness, "lib": st.lib or self.lib})
+                            "module": module, "harness": st.harness or self.harness, "lib": st.lib or self.lib,
+                            "impl_variant": getattr(self, "impl_variant", "asan")})
         elif d is not None:
             op = st.ops[d] if d < len(st.ops) else "<end>"
             desc = "model and implementation differ at op #%d `%s`: impl `%s` model `%s`" % (
